@@ -501,7 +501,7 @@ pub fn run(ctx: &Ctx) {
     ctx.subspace("proptest: sequences of up to 50 datagrams with interleaved ticks", nseq as u64, false);
 
     if std::env::var("VCHECK_FUZZ").is_ok() && !ctx.quick() {
-        crate::fuzzdrv::run_campaign(ctx, "node_datagrams", 20_000);
+        crate::fuzzdrv::run_campaign_par(ctx, "node_datagrams", 48_000, 16, 4096);
     }
 }
 
